@@ -5,15 +5,15 @@ import json, subprocess, sys
 CLAIMED = {}
 
 TECH = {
- "C01": "influence sets (data + phi-selecting control dependence) of decoder map writes; must-pass-through of child insertion; nil/type-set/bounds obligations",
+ "C01": "counter-advance pairing of the tag sequence number, influence sets (data + phi-selecting control dependence) of decoder map writes; must-pass-through of child insertion; nil/type-set/bounds obligations",
  "C02": "path-sensitive typestate of the element encoder's buffer writes (tag protocol, content-written obligation) over a product of tag state, branch-fact and dynamic-type-set valuations, interprocedural over local closures and helpers, numeric-conversion scan of the rendering functions, shared-key/literal scan, predicate-atom comparison of the two key scans, escape taint over SSA with a gated-phi sanitiser model, escape-table evaluation, map-range order effects",
  "C03": "path-sensitive typestate of the element encoder's buffer writes (tag protocol, content-written obligation), loop path-cover of recursive encoder calls, error path search with phi renaming, escape taint",
  "C04": "token-level path-sensitive typestate of the sequence encoder's writes (tag protocol, content-written obligation), sequence-counter pairing per block, map-range order effects with sort-dominance, producer/consumer shape contract, nil/type-set/bounds obligations",
  "C05": "path-sensitive typestate of both element encoders' markup writes, escape taint, escape-table evaluation, path enumeration of the coupled setters, accumulator-coupling of validator input and returned bytes, error path search",
  "C06": "whole-program points-to ownership of the returned bytes (not reachable from package state), backward slice of returned bytes for textual rewriting, option-to-SetEscapeHTML flow, wrapper composition, error path search",
- "C07": "append/count pairing invariant, recursion-argument shape (keys[1:]), append dominance by len(keys)==0, alias lint for y[:0] reuse, compiler BCE report + zone analysis",
- "C08": "loop path-cover of walkers, referrer classification of the sub-key map, influence sets of breadcrumbs, comparison-operand provenance, points-to receiver effects",
- "C09": "loop path-cover with allowed skip conditions, leaf-append shape, wrapper composition and option forwarding, compiler BCE report",
+ "C07": "append/count pairing invariant, recursion-argument shape (keys[1:]) resolved through helper functions, per-iteration freshness of parsed records (no loop-carried value in a stored field), comma-ok presence discipline, append dominance by len(keys)==0, alias lint for y[:0] reuse, compiler BCE report + zone analysis",
+ "C08": "loop path-cover of walkers, locality of the predicate's rejections (inside the condition loop), referrer classification of the sub-key map, influence sets of breadcrumbs, comparison-operand provenance, points-to receiver effects",
+ "C09": "loop path-cover with allowed skip conditions, guard implication for attribute-prefix tests (prefix known non-empty, through boolean phis and parameters), comma-ok presence discipline on the walker and the path resolution, leaf-append shape, wrapper composition and option forwarding, compiler BCE report",
  "C10": "guard/node agreement of sub-key tests and writes, comma-ok presence discipline, per-block pairing of replacements and counter increments, key/value operand provenance, flag-gated list store, recursion-argument shape",
  "C11": "write enumeration through helpers, return-after-write reachability, operand provenance of the move, positional-termination test of the parent walker, type-set/bounds obligations",
  "C12": "whole-program inclusion-based points-to analysis (receiver effects), error path search, nil/type-set/bounds obligations",
